@@ -18,6 +18,7 @@ result is Some iff a retry tag was found or `matched`, where matched = filter.ev
 when a filter exists, else `cli.retry.is_some() || cli.retry_after.is_some()`; (R5) the enqueue path calls the
 resolver once per scenario with that scenario's own rule.
 Not decided: parsing of malformed tag payloads (string processing on inputs).
+Added after the second seeded round: (R7) CLI options given through with_cli() survive later builder calls and clone() (= C15.R5's tables); (R8) the retry tag filter is an ordinary boolean formula (= C15.R2).
 """
 DECLINED = ["parsing of the tag text (`@retry(3).after(5s)` syntax) on arbitrary strings"]
 ASSUMPTIONS = ["Option::or / or_else prefer the receiver"]
